@@ -1,5 +1,7 @@
 """C09 on the real compiler: `series_computation` on hand-written programs (harness/progs.py) with random inputs and
 flags vs the direct interpretation of the same source text (dslref.Interp)."""
+import os, sys; sys.path.insert(0, os.path.dirname(os.path.abspath(__file__)))
+from common import case_rnd, skip
 import sys, os, json, random, itertools, warnings
 import numpy as np
 warnings.simplefilter("ignore")
@@ -13,6 +15,8 @@ def main(seed, ncases, driver, out):
     rnd = random.Random(seed); failures = []; dist = {}; samples = []; evals = 0; distinct = 0
     names = ["prog_basic", "prog_nested", "prog_flags", "prog_lower"]
     for c in range(ncases):
+        if skip(c): continue
+        rnd = case_rnd(seed, c)
         pname = names[c % len(names)]; fn = getattr(progs, pname)
         N = rnd.randint(1, 3); sizes = [rnd.randint(1, 2) for _ in range(N)]; rng = np.random.default_rng(rnd.randrange(2**31))
         cplx = rnd.random() < 0.5
